@@ -67,6 +67,27 @@ pub fn whois_view(w: &mut World, slot: usize, nick: &str) -> Result<Option<BTree
     Ok(if seen { Some(out) } else { None })
 }
 
+/// WHOIS n1,n2,... as seen by slot: per reported nick the channels of its 319 lines.
+pub fn whois_multi_view(w: &mut World, slot: usize, nicks: &[String]) -> Result<BTreeMap<String, BTreeMap<String, String>>, MachineryError> {
+    let r = query(w, slot, &format!("WHOIS {}", nicks.join(",")))?;
+    let mut out: BTreeMap<String, BTreeMap<String, String>> = BTreeMap::new();
+    for m in r {
+        if m.cmd == "311" {
+            if let Some(n) = m.params.get(1) {
+                out.entry(n.clone()).or_default();
+            }
+        }
+        if m.cmd == "319" && m.params.len() >= 3 {
+            let e = out.entry(m.params[1].clone()).or_default();
+            for c in m.params[2].split(' ').filter(|x| !x.is_empty()) {
+                let pos = c.find('#').or_else(|| c.rfind('&')).unwrap_or(0);
+                e.insert(c[pos..].to_string(), c[..pos].to_string());
+            }
+        }
+    }
+    Ok(out)
+}
+
 pub fn finding(sig: &str, detail: String) -> Finding {
     Finding {
         sig: sig.to_string(),
